@@ -56,44 +56,62 @@ def func_return(tree, fname, rel):
 
 
 def import_edges(rel):
-    """`from pysnark.X import *` style edges between backend modules"""
+    """`from pysnark.X import *` / `from .X import *` / `import pysnark.X` edges between backend modules"""
     t = parse(rel)
+    pkg = rel[:-3].replace("/", ".").rsplit(".", 1)[0]        # package of the module
     out = []
     for n in t.body:
-        if isinstance(n, ast.ImportFrom) and n.module and n.module.startswith("pysnark.") and \
-                any(a.name == "*" for a in n.names):
-            out.append(n.module)
+        if isinstance(n, ast.ImportFrom) and any(a.name == "*" for a in n.names):
+            if n.level == 0 and n.module and n.module.startswith("pysnark."):
+                m = n.module
+            elif n.level == 1 and n.module:
+                m = pkg + "." + n.module
+            else:
+                continue
+            if m not in out:
+                out.append(m)
+        elif isinstance(n, ast.Import):
+            for a in n.names:
+                if a.name.startswith("pysnark.") and a.name.endswith("backend") and a.name not in out:
+                    out.append(a.name)
     return out
 
 
 def constants():
-    c = {}
-    c["snarkjs_p"] = module_assign(parse("pysnark/snarkjsbackend.py"), "snarkjsp", "pysnark/snarkjsbackend.py")
-    c["zkif_p"] = module_assign(parse("pysnark/zkinterface/backend.py"), "modulus", "pysnark/zkinterface/backend.py")
-    c["bellman_p"] = call_arg(parse("pysnark/zkinterface/backendbellman.py"), "set_modulus",
-                              "pysnark/zkinterface/backendbellman.py")
-    c["bulletproofs_p"] = call_arg(parse("pysnark/zkinterface/backendbulletproofs.py"), "set_modulus",
-                                   "pysnark/zkinterface/backendbulletproofs.py")
-    c["qaptools_p"] = module_assign(parse("pysnark/qaptools/options.py"), "vc_p", "pysnark/qaptools/options.py")
-    c["nobackend_p"] = func_return(parse("pysnark/nobackend.py"), "get_modulus", "pysnark/nobackend.py")
-    rt = parse("pysnark/runtime.py")
-    c["backends"] = module_assign(rt, "backends", "pysnark/runtime.py")
-    c["bitlength"] = module_assign(rt, "bitlength", "pysnark/runtime.py")
-    c["autoprove"] = module_assign(rt, "autoprove", "pysnark/runtime.py")
-    c["resolution"] = module_assign(parse("pysnark/fixedpoint.py"), "resolution", "pysnark/fixedpoint.py")
-    c["edges"] = {
-        "pysnark.zkinterface.backendbellman": import_edges("pysnark/zkinterface/backendbellman.py"),
-        "pysnark.zkinterface.backendbulletproofs": import_edges("pysnark/zkinterface/backendbulletproofs.py"),
-        "pysnark.libsnark.backendgg": import_edges("pysnark/libsnark/backendgg.py"),
-    }
-    for k in ("snarkjs_p", "zkif_p", "bellman_p", "bulletproofs_p", "qaptools_p", "nobackend_p", "bitlength",
-              "resolution"):
+    """every item is extracted independently: one that no longer has the expected shape is reported in `errors`
+    and rendered as 0 / [] so that exactly the proof obligations depending on it fail"""
+    c = {}; errors = []
+    def item(key, fn, default):
+        try:
+            c[key] = fn()
+        except ExtractError as e:
+            errors.append(str(e)); c[key] = default
+    item("snarkjs_p", lambda: module_assign(parse("pysnark/snarkjsbackend.py"), "snarkjsp", "pysnark/snarkjsbackend.py"), 0)
+    item("zkif_p", lambda: module_assign(parse("pysnark/zkinterface/backend.py"), "modulus", "pysnark/zkinterface/backend.py"), 0)
+    item("bellman_p", lambda: call_arg(parse("pysnark/zkinterface/backendbellman.py"), "set_modulus", "pysnark/zkinterface/backendbellman.py"), 0)
+    item("bulletproofs_p", lambda: call_arg(parse("pysnark/zkinterface/backendbulletproofs.py"), "set_modulus", "pysnark/zkinterface/backendbulletproofs.py"), 0)
+    item("qaptools_p", lambda: module_assign(parse("pysnark/qaptools/options.py"), "vc_p", "pysnark/qaptools/options.py"), 0)
+    item("nobackend_p", lambda: func_return(parse("pysnark/nobackend.py"), "get_modulus", "pysnark/nobackend.py"), 0)
+    item("backends", lambda: module_assign(parse("pysnark/runtime.py"), "backends", "pysnark/runtime.py"), [])
+    item("bitlength", lambda: module_assign(parse("pysnark/runtime.py"), "bitlength", "pysnark/runtime.py"), 0)
+    item("autoprove", lambda: module_assign(parse("pysnark/runtime.py"), "autoprove", "pysnark/runtime.py"), False)
+    item("resolution", lambda: module_assign(parse("pysnark/fixedpoint.py"), "resolution", "pysnark/fixedpoint.py"), 0)
+    edges = {}
+    for mod, rel in (("pysnark.zkinterface.backendbellman", "pysnark/zkinterface/backendbellman.py"),
+                     ("pysnark.zkinterface.backendbulletproofs", "pysnark/zkinterface/backendbulletproofs.py"),
+                     ("pysnark.libsnark.backendgg", "pysnark/libsnark/backendgg.py")):
+        try:
+            edges[mod] = import_edges(rel)
+        except ExtractError as e:
+            errors.append(str(e)); edges[mod] = []
+    c["edges"] = edges
+    for k in ("snarkjs_p", "zkif_p", "bellman_p", "bulletproofs_p", "qaptools_p", "nobackend_p", "bitlength", "resolution"):
         if not isinstance(c[k], int) or isinstance(c[k], bool):
-            raise ExtractError(f"{k} is not an integer literal: {c[k]!r}")
+            errors.append(f"{k} is not an integer literal: {c[k]!r}"); c[k] = 0
     if not (isinstance(c["backends"], list) and all(isinstance(b, list) and len(b) == 2 and
             all(isinstance(x, str) for x in b) for b in c["backends"])):
-        raise ExtractError("runtime.backends is not a list of [name, module] string pairs")
-    return c
+        errors.append("runtime.backends is not a list of [name, module] string pairs"); c["backends"] = []
+    return c, errors
 
 
 def poseidon():
@@ -167,12 +185,7 @@ def write_if_changed(path, content):
 def run():
     """returns (constants dict, list of errors). Missing pieces are rendered as 0/[] so that the
     dependent proof obligations FAIL rather than the build being impossible to attribute."""
-    errors = []
-    try:
-        c = constants()
-    except ExtractError as e:
-        errors.append(str(e))
-        c = None
+    c, errors = constants()
     try:
         d = poseidon()
     except ExtractError as e:
